@@ -332,52 +332,22 @@ theorem matchCaseLook_filter (ts : List Spanned) (n : Int) (sc sl : Bool) :
       split <;> simp only [ih]
       all_goals (repeat' split) <;> simp only [ih]
 
-/-- no trivia token is reached by the `type` look-ahead loop while its bracket counter is ≤ 0 -/
-def TypeLoopSafe : List Spanned → Int → Prop
-  | [], _ => True
-  | t :: ts, n =>
-    if t.tok.isTrivia then n > 0 ∧ TypeLoopSafe ts n else
-    match t.tok with
-    | .newline => True
-    | .op .Equal => if n = 0 then True else if n > 0 then TypeLoopSafe ts n else True
-    | .op .Lsqb => TypeLoopSafe ts (n + 1)
-    | .op .Rsqb => TypeLoopSafe ts (n - 1)
-    | _ => if n > 0 then TypeLoopSafe ts n else True
-
-theorem typeLoop_filter (ts : List Spanned) (n : Int) (h : TypeLoopSafe ts n) :
+/-- the `type` look-ahead loop skips trivia tokens (repaired code, commit e335017), so filtering
+    them first changes nothing -/
+theorem typeLoop_filter (ts : List Spanned) (n : Int) :
     typeLoop (dropTrivia ts) n = typeLoop ts n := by
   induction ts generalizing n with
   | nil => rfl
   | cons t ts ih =>
     by_cases ht : t.tok.isTrivia = true
     · rw [dropTrivia_cons_trivia ht]
-      simp only [TypeLoopSafe, ht, if_true] at h
       have : typeLoop (t :: ts) n = typeLoop ts n := by
-        cases htk : t.tok <;> simp [htk, Tok.isTrivia] at ht <;> simp [typeLoop, htk, h.1]
-      rw [this, ih n h.2]
+        cases htk : t.tok <;> simp [htk, Tok.isTrivia] at ht <;> simp [typeLoop, htk]
+      rw [this, ih n]
     · have ht' : t.tok.isTrivia = false := by simpa using ht
       rw [dropTrivia_cons_keep ht']
-      simp only [TypeLoopSafe, ht', Bool.false_eq_true, if_false] at h
       unfold typeLoop
-      split
-      · rfl
-      · rename_i heq
-        rw [heq] at h; simp only [] at h
-        split
-        · rfl
-        · split
-          · rename_i h0 hp; simp only [h0, hp, if_false, if_true] at h; exact ih n h
-          · rfl
-      · rename_i heq; rw [heq] at h; exact ih _ h
-      · rename_i heq; rw [heq] at h; exact ih _ h
-      · rename_i h1 h2 h3 h4
-        split
-        · rename_i hp
-          have : TypeLoopSafe ts n := by
-            cases htk : t.tok <;> simp_all [TypeLoopSafe]
-          exact ih n this
-        · rfl
-
+      split <;> simp only [ih]
 
 /-- the first token after a soft keyword is not a trivia token -/
 def HeadOk : List Spanned → Prop
@@ -395,45 +365,44 @@ theorem matchCaseLook_filter_first (ts : List Spanned) (h : HeadOk ts) :
     split <;> simp only [matchCaseLook_filter]
     all_goals (repeat' split) <;> simp only [matchCaseLook_filter]
 
-theorem typeLook_filter (ts : List Spanned) (h : HeadOk ts) (hs : TypeLoopSafe (ts.drop 1) 0) :
+theorem typeLook_filter (ts : List Spanned) (h : HeadOk ts) :
     typeLook (dropTrivia ts) = typeLook ts := by
   cases ts with
   | nil => rfl
   | cons t ts =>
     have ht : t.tok.isTrivia = false := h
     rw [dropTrivia_cons_keep ht]
-    simp only [List.drop_succ_cons, List.drop_zero] at hs
-    simp only [typeLook, typeLoop_filter ts 0 hs]
+    simp only [typeLook, typeLoop_filter ts 0]
 
 /-- along the stream, every soft keyword that is examined at the start of a line is followed by a
-    non-trivia token and (for `type`) its look-ahead loop never meets a trivia token at counter ≤ 0 -/
+    non-trivia token -/
 def SoftSafe : List Spanned → Bool → Prop
   | [], _ => True
   | t :: ts, sol =>
     (sol = true → (t.tok = .kw .Match ∨ t.tok = .kw .Case ∨ t.tok = .kw .Type_) →
-        HeadOk ts ∧ (t.tok = .kw .Type_ → TypeLoopSafe (ts.drop 1) 0)) ∧
+        HeadOk ts) ∧
     SoftSafe ts (nextSol sol (softTok sol t ts))
 
 theorem softTok_filter (sol : Bool) (t : Spanned) (ts : List Spanned)
     (h : sol = true → (t.tok = .kw .Match ∨ t.tok = .kw .Case ∨ t.tok = .kw .Type_) →
-        HeadOk ts ∧ (t.tok = .kw .Type_ → TypeLoopSafe (ts.drop 1) 0)) :
+        HeadOk ts) :
     softTok sol t (dropTrivia ts) = softTok sol t ts := by
   unfold softTok
   split
   · rename_i hk
     by_cases hs : sol = true
     · have := h hs (Or.inl hk)
-      simp only [hs, Bool.not_true, Bool.false_eq_true, if_false, matchCaseLook_filter_first ts this.1]
+      simp only [hs, Bool.not_true, Bool.false_eq_true, if_false, matchCaseLook_filter_first ts this]
     · simp [hs]
   · rename_i hk
     by_cases hs : sol = true
     · have := h hs (Or.inr (Or.inl hk))
-      simp only [hs, Bool.not_true, Bool.false_eq_true, if_false, matchCaseLook_filter_first ts this.1]
+      simp only [hs, Bool.not_true, Bool.false_eq_true, if_false, matchCaseLook_filter_first ts this]
     · simp [hs]
   · rename_i hk
     by_cases hs : sol = true
     · have := h hs (Or.inr (Or.inr hk))
-      simp only [hs, Bool.not_true, Bool.false_eq_true, if_false, typeLook_filter ts this.1 (this.2 hk)]
+      simp only [hs, Bool.not_true, Bool.false_eq_true, if_false, typeLook_filter ts this]
     · simp [hs]
   · rfl
 
@@ -487,18 +456,19 @@ def failSrc : List Nat := [116, 121, 112, 101, 32, 88, 91, 40, 93, 32, 35, 32, 9
 
 def noUnicode : UParams := ⟨fun _ => false, fun _ => false, fun _ => false⟩
 
-/-- KNOWN FINDING (reproduced on the real code): without the `SoftSafe` side condition the statement is
-    false.  On `failSrc` the default configuration keeps `type` as the keyword token (`=` is met while
-    the look-ahead's square-bracket counter is 0), the `full-lexer` configuration demotes it to a name
-    (the `Comment` token is met first, at counter 0, because the `(` is not counted). -/
-theorem softkw_commutes_filter_fails :
-    lex ⟨false, noUnicode⟩ .module 0 failSrc ≠ (lex ⟨true, noUnicode⟩ .module 0 failSrc).map dropOut := by
-  decide
+/-- FORMER FINDING, repaired in /repo (commit e335017): before the repair the `type` look-ahead
+    stopped at a `Comment` token met at bracket counter 0, so on `failSrc` the default configuration
+    kept `type` as the keyword and the `full-lexer` configuration demoted it to a name.  On the
+    repaired model both configurations agree on this text (it is not `SoftSafe`-vacuous: the comment
+    is met at counter 0 inside the look-ahead). -/
+theorem softkw_commutes_filter_failSrc :
+    lex ⟨false, noUnicode⟩ .module 0 failSrc = (lex ⟨true, noUnicode⟩ .module 0 failSrc).map dropOut := by
+  decide +kernel
 
 example : ((lex ⟨false, noUnicode⟩ .module 0 failSrc).map (fun o => o.toks.head?.map (·.tok))) = some (some (.kw .Type_)) := by
   decide
-example : ((lex ⟨true, noUnicode⟩ .module 0 failSrc).map (fun o => o.toks.head?.map (·.tok))) =
-    some (some (.name [116, 121, 112, 101])) := by decide
+example : ((lex ⟨true, noUnicode⟩ .module 0 failSrc).map (fun o => o.toks.head?.map (·.tok))) = some (some (.kw .Type_)) := by
+  decide
 
 /-- the side condition holds for ordinary streams, e.g. `match x : # c` NEWLINE -/
 example : SoftSafe [⟨.kw .Match, 0, 5, 0, 5⟩, ⟨.name [120], 6, 7, 6, 7⟩, ⟨.op .Colon, 7, 8, 7, 8⟩,
